@@ -9,6 +9,9 @@
   verifier forms `Σ coeff·C_label` itself, so the "transmitted evaluation" clause of the property has
   no counterpart here; the claims a verifier can be given wrongly are the value, a coefficient and a
   constant — each moves the pairing defect by the amount stated in `pst13_lc_defect_shift`.
+  General (any number of combinations / point labels): completeness `pst13_lc_complete`, the
+  refusals, the policy, and the randomizer-weighted form of the batch decision; the explicit
+  rejection corollaries are proved for one combination under one point label (`…_partial`).
 -/
 import PCV.Proofs.PST13LC
 import PCV.Proofs.Combinations
@@ -100,12 +103,17 @@ theorem pst13_lc_adjusted_value (lcs : List (LC.LinComb F)) (evals : PST.Evals F
 
 /-! ### the verifier's decision in closed form, and what a changed statement does to it -/
 
-/-- **What `check_combinations` computes on one combination claim** `(lc, z, v)` — arbitrary
+/-- **What `check_combinations` computes on one combination claim** `(lc, z, v)`.
+(`_partial`: stated for ONE combination queried under ONE point label.  For several combinations
+and point labels the pairing product is the randomizer-weighted sum of such per-point defects —
+`pst13_lc_batch_defect_shift` below and `C05.pst13_batch_defect` — but the closed form of each
+per-point `(C, V)` in terms of the individual coefficients / constants / values, with the challenge
+of each position, is not stated in general.)  Arbitrary
 (unbounded) commitments, arbitrary verifier key, any proof with one witness per key variable: the
 pairing product is
 `lcDefect = ((Σ coeff·C_label − (v − constants)·g)·ξ − rv·γ)·h − Σᵢ Wᵢ·(βᵢh − zᵢ·h)`
 and the answer is whether it vanishes. -/
-theorem pst13_lc_check_closed (vk : PST.VK F) (comms : List (PST.LComm F))
+theorem pst13_lc_check_closed_partial (vk : PST.VK F) (comms : List (PST.LComm F))
     (hcb : ∀ c ∈ comms, c.bound = none ∧ c.comm.shifted = none) (lc : LC.LinComb F)
     (hk : PST.AllKnown comms lc.terms) (pl : PST.Label) (z : List F) (v : F) (π : PST.Proof F)
     (ξ : F) (ξs rs : List F) (hw : π.w.length = vk.numVars) (hbh : vk.numVars ≤ vk.betaH.length)
@@ -126,9 +134,10 @@ theorem pst13_lc_defect_shift (vk : PST.VK F) (comms : List (PST.LComm F)) (lc l
           - vk.g * ((v' - PST.lcConst lc'.terms) - (v - PST.lcConst lc.terms))) * ξ * vk.h :=
   PST.lcDefect_shift vk comms lc lc' z v v' π ξ
 
-/-- **A changed value is rejected.**  If the statement `(lc, z, v)` is accepted with `π`, the
+/-- **A changed value is rejected** (`_partial`: one combination, one query — see
+`pst13_lc_check_closed_partial` for what the general case lacks).  If the statement `(lc, z, v)` is accepted with `π`, the
 statement `(lc, z, v + δ)` is rejected with the same proof whenever `δ·g·ξ·h ≠ 0`. -/
-theorem pst13_lc_wrong_value_rejected (vk : PST.VK F) (comms : List (PST.LComm F))
+theorem pst13_lc_wrong_value_rejected_partial (vk : PST.VK F) (comms : List (PST.LComm F))
     (hcb : ∀ c ∈ comms, c.bound = none ∧ c.comm.shifted = none) (lc : LC.LinComb F)
     (hk : PST.AllKnown comms lc.terms) (pl : PST.Label) (z : List F) (v δ : F) (π : PST.Proof F)
     (ξ : F) (ξs rs : List F) (hw : π.w.length = vk.numVars) (hbh : vk.numVars ≤ vk.betaH.length)
@@ -148,9 +157,9 @@ theorem pst13_lc_wrong_value_rejected (vk : PST.VK F) (comms : List (PST.LComm F
   apply hne
   linear_combination -hx
 
-/-- **A changed constant is rejected.**  The verifier's combination has the constant term
+/-- **A changed constant is rejected** (`_partial`: one combination, one query).  The verifier's combination has the constant term
 `a + δ` where the prover's had `a`: rejected whenever `δ·g·ξ·h ≠ 0`. -/
-theorem pst13_lc_wrong_constant_rejected (vk : PST.VK F) (comms : List (PST.LComm F))
+theorem pst13_lc_wrong_constant_rejected_partial (vk : PST.VK F) (comms : List (PST.LComm F))
     (hcb : ∀ c ∈ comms, c.bound = none ∧ c.comm.shifted = none) (lbl : PST.Label)
     (pre post : List (F × LC.LCTerm)) (a δ : F)
     (hk : PST.AllKnown comms (pre ++ (a, .one) :: post)) (pl : PST.Label) (z : List F) (v : F)
@@ -183,9 +192,9 @@ theorem pst13_lc_wrong_constant_rejected (vk : PST.VK F) (comms : List (PST.LCom
   apply hne
   linear_combination hx
 
-/-- **A changed coefficient is rejected.**  The verifier's combination has `a + δ` where the
+/-- **A changed coefficient is rejected** (`_partial`: one combination, one query).  The verifier's combination has `a + δ` where the
 prover's had `a`, on the polynomial whose commitment is `c`: rejected whenever `δ·c·ξ·h ≠ 0`. -/
-theorem pst13_lc_wrong_coefficient_rejected (vk : PST.VK F) (comms : List (PST.LComm F))
+theorem pst13_lc_wrong_coefficient_rejected_partial (vk : PST.VK F) (comms : List (PST.LComm F))
     (hcb : ∀ c ∈ comms, c.bound = none ∧ c.comm.shifted = none) (lbl : PST.Label)
     (pre post : List (F × LC.LCTerm)) (a δ : F) (m : PST.Label) (c : PST.LComm F)
     (hm : Marlin.lookupLast (fun (c : PST.LComm F) => c.label) m comms = some c)
@@ -221,6 +230,21 @@ theorem pst13_lc_wrong_coefficient_rejected (vk : PST.VK F) (comms : List (PST.L
   intro hx
   apply hne
   linear_combination hx
+
+/-- **Any number of point labels: every per-point combined claim enters with its randomizer.**
+`batch_check` on combined commitments / values moved by `(dcs, dvs)` — whatever change of
+coefficients, constants or values produced the move — has its pairing product moved by
+`Σₖ ρₖ·(dCₖ − g·dVₖ)·h` (`ρ₀ = 1`, then the verifier's randomizers). -/
+theorem pst13_lc_batch_defect_shift (vk : PST.VK F) (cs dcs : List F) (zs : List (List F))
+    (vs dvs : List F) (πs : List (PST.Proof F)) (rs : List F)
+    (h1 : dcs.length = cs.length) (h2 : dvs.length = vs.length) (h3 : cs.length = vs.length)
+    (h4 : zs.length = cs.length) (h5 : πs.length = cs.length)
+    (hbh : vk.numVars ≤ vk.betaH.length) (hπ : ∀ π ∈ πs, π.w.length = vk.numVars)
+    (hz : ∀ z ∈ zs, vk.numVars ≤ z.length) :
+    PST.batchDefect vk (List.zipWith (· + ·) cs dcs) zs (List.zipWith (· + ·) vs dvs) πs rs
+      = .ok (PST.wsum 1 rs (PST.defectsC vk cs zs vs πs) + PST.wsum 1 rs (PST.claimShifts vk dcs dvs))
+    ∧ PST.batchDefect vk cs zs vs πs rs = .ok (PST.wsum 1 rs (PST.defectsC vk cs zs vs πs)) :=
+  PST.batchDefect_shift vk cs dcs zs vs dvs πs rs h1 h2 h3 h4 h5 hbh hπ hz
 
 /-! ### refusals -/
 
